@@ -103,6 +103,9 @@ func (d *Dictionary) Decode(dst [][]byte, src []byte, itemsCount uint64) ([][]by
 	if err != nil {
 		return nil, err
 	}
+	if err = validateRLE(d.tmp, uint64(len(d.values)), itemsCount); err != nil {
+		return nil, err
+	}
 	d.indices = decodeRLE(d.indices, d.tmp)
 	if uint64(len(d.indices)) != itemsCount {
 		return nil, fmt.Errorf("unexpected item counts; got %d; want %d", len(d.indices), itemsCount)
@@ -154,6 +157,25 @@ func (d *Dictionary) decodeBytesBlockWithTail(src []byte, itemsCount uint64) ([]
 	}
 
 	return dst, tail, nil
+}
+
+// validateRLE rejects corrupted (value, count) pairs before they are expanded:
+// every value must index the dictionary and the counts must add up to itemsCount.
+func validateRLE(src []uint32, valuesCount, itemsCount uint64) error {
+	if len(src)%2 != 0 {
+		return fmt.Errorf("unexpected odd length of RLE pairs: %d", len(src))
+	}
+	var total uint64
+	for i := 0; i < len(src); i += 2 {
+		if uint64(src[i]) >= valuesCount {
+			return fmt.Errorf("dictionary index %d out of range; dictionary has %d values", src[i], valuesCount)
+		}
+		total += uint64(src[i+1])
+	}
+	if total != itemsCount {
+		return fmt.Errorf("unexpected item counts; got %d; want %d", total, itemsCount)
+	}
+	return nil
 }
 
 func encodeRLE(dst []uint32, src []uint32) []uint32 {
@@ -246,6 +268,9 @@ func (bpd *bitPackingDecoder) decode(dst []uint32) ([]uint32, error) {
 	bitsWidth, err := bpd.br.ReadBits(8)
 	if err != nil {
 		return nil, err
+	}
+	if bitsWidth < 1 || bitsWidth > 32 {
+		return nil, fmt.Errorf("unexpected bits width: %d; want 1..32", bitsWidth)
 	}
 	for i := uint64(0); i < length; i++ {
 		value, err := bpd.br.ReadBits(int(bitsWidth))
